@@ -9,101 +9,10 @@
   Channel equality itself (dict / model / value-with-unit / JSON / CSV / workbook readers are
   pandas and pydantic code) is decided by relational testing, not by a theorem.
 -/
-import OPModel.Model.Sheet
-import Mathlib.Data.List.Basic
-import Mathlib.Tactic.ByContra
+import OPModel.Proofs.SheetLemmas
 
 namespace OP.C16
 open OP OP.Sheet
-
-def Clean (s : Str) : Prop := ∀ c ∈ s, c ∉ forbidden
-
-theorem suffix_ok : ∀ i, i < 1000 → (suffix i).length ≤ 6 ∧ Clean (suffix i) := by
-  have h : (List.range 1000).all (fun i => decide ((suffix i).length ≤ 6) && (suffix i).all (fun c => !forbidden.contains c)) = true := by
-    decide +kernel
-  intro i hi
-  have := List.all_eq_true.mp h i (List.mem_range.mpr hi)
-  simp only [Bool.and_eq_true, decide_eq_true_eq, List.all_eq_true, Bool.not_eq_true'] at this
-  refine ⟨this.1, ?_⟩
-  intro c hc hf
-  have := this.2 c hc
-  rw [List.contains_iff_mem.mpr hf] at this
-  cases this
-
-theorem clean_sublist {a b : Str} (h : a.Sublist b) (hb : Clean b) : Clean a :=
-  fun c hc => hb c (h.subset hc)
-
-theorem rstripP_sublist (p : Char → Bool) (s : Str) : (rstripP p s).Sublist s := by
-  unfold rstripP
-  have := (List.dropWhile_sublist p (l := s.reverse)).reverse
-  simpa using this
-
-theorem sanitize_clean (name : Str) : Clean (sanitize name) := by
-  unfold sanitize
-  simp only
-  split_ifs
-  · intro c hc; revert c; decide
-  · apply clean_sublist (rstripP_sublist _ _)
-    apply clean_sublist (rstripP_sublist _ _)
-    apply clean_sublist (List.dropWhile_sublist _)
-    intro c hc hf
-    obtain ⟨d, _, rfl⟩ := List.mem_map.mp hc
-    split_ifs at hf with h
-    · revert hf; decide
-    · exact h (List.contains_iff_mem.mpr hf)
-
-theorem findAlt_spec (cand : Str) (hc : Clean cand) (used : List Str) :
-    ∀ fuel idx alt, idx + fuel ≤ 1000 → findAlt cand used fuel idx = some alt →
-      alt ∉ used ∧ alt.length ≤ 31 ∧ Clean alt := by
-  intro fuel
-  induction fuel with
-  | zero => intro idx alt _ h; simp [findAlt] at h
-  | succ n ih =>
-    intro idx alt hb h
-    simp only [findAlt] at h
-    obtain ⟨hl, hcl⟩ := suffix_ok idx (by omega)
-    split_ifs at h with hlen hu hu
-    · exact ih (idx + 1) alt (by omega) h
-    · cases h
-      refine ⟨by simpa using hu, ?_, ?_⟩
-      · simp only [List.length_append, List.length_take]; omega
-      · intro c hc'
-        rcases List.mem_append.mp hc' with h1 | h1
-        · exact hc c (List.mem_of_mem_take h1)
-        · exact hcl c h1
-    · exact ih (idx + 1) alt (by omega) h
-    · cases h
-      refine ⟨by simpa using hu, ?_, ?_⟩
-      · simp only [List.length_append]; omega
-      · intro c hc'
-        rcases List.mem_append.mp hc' with h1 | h1
-        · exact hc c h1
-        · exact hcl c h1
-
-/-- One allocation: the name is new, short and clean. -/
-theorem uniqueName_spec (base : Str) (used : List Str) (n : Str) (used' : List Str)
-    (h : uniqueName base used = .ok (n, used')) :
-    n ∉ used ∧ used' = n :: used ∧ n.length ≤ 31 ∧ Clean n := by
-  unfold uniqueName at h
-  simp only at h
-  have hcand : Clean (if ((sanitize base).take 31).isEmpty then "Sheet".toList else (sanitize base).take 31) ∧
-      (if ((sanitize base).take 31).isEmpty then "Sheet".toList else (sanitize base).take 31).length ≤ 31 := by
-    split_ifs
-    · exact ⟨by intro c hc; revert c; decide, by decide⟩
-    · exact ⟨clean_sublist (List.take_sublist _ _) (sanitize_clean base), by simp [List.length_take]; omega⟩
-  generalize (if ((sanitize base).take 31).isEmpty then "Sheet".toList else (sanitize base).take 31) = cand at h hcand
-  split_ifs at h with hu
-  · cases h
-    exact ⟨by simpa using hu, rfl, hcand.2, hcand.1⟩
-  · cases hf : findAlt cand used 998 2 with
-    | none => rw [hf] at h; cases h
-    | some alt =>
-      rw [hf] at h
-      obtain ⟨a, b, c⟩ := findAlt_spec cand hcand.1 used 998 2 alt (by omega) hf
-      have h' := Except.ok.inj h
-      obtain ⟨h1, h2⟩ := Prod.mk.inj h'
-      subst h1
-      exact ⟨a, h2.symm, b, c⟩
 
 /-- **Every list of labels**: the allocated names are pairwise distinct, distinct from those
     already used, at most 31 characters, and contain none of `: / ? * \ [ ]`. -/
@@ -140,28 +49,6 @@ theorem sheet_names_unique : ∀ (labels : List Str) (used names : List Str),
             exact ⟨fun hmu => x (List.mem_cons_of_mem _ hmu), y, z⟩
 
 /-! ### the wrapper -/
-
-def wrun (w : Wrapper) : List WOp → Wrapper
-  | [] => w
-  | op :: ops => wrun (wstep w op).1 ops
-
-/-- The cache is empty or holds the loaded problem. -/
-def WInv (w : Wrapper) : Prop := w.cached = none ∨ w.cached = w.loaded
-
-theorem wstep_inv (w : Wrapper) (op : WOp) (h : WInv w) : WInv (wstep w op).1 := by
-  cases op with
-  | load i => exact Or.inl rfl
-  | target =>
-    unfold wstep
-    cases hc : w.cached with
-    | some r => simp only; exact h
-    | none => simp only; exact Or.inr rfl
-
-theorem wrun_inv : ∀ (ops : List WOp) (w : Wrapper), WInv w → WInv (wrun w ops) := by
-  intro ops
-  induction ops with
-  | nil => intro w h; exact h
-  | cons op ops ih => intro w h; exact ih _ (wstep_inv w op h)
 
 /-- **Any history**: after any sequence of `load`/`target` calls, `target` returns the result of
     the problem loaded last (and nothing when none is loaded). -/
